@@ -59,7 +59,7 @@ fn selftest(bins: &Bins, verbose: bool) -> Result<String, String> {
         return Err(format!("deadlock toy: no deadlock found, got {:?} errors {:?}", st.outcomes, st.engine_errors));
     }
     // replay determinism: the same deviation list twice gives the same trace
-    let w = Worker::new(60, bins);
+    let w = Worker::new(160, bins);
     let base = w.run(&mk("lost"), &RunSpec::base(Policy::P0))?;
     let kids = explore::children(&explore::Exec { spec: RunSpec::base(Policy::P0), res: base, before: Default::default(), snap: Default::default() });
     let spec = kids.into_iter().nth(3).ok_or("no deviation available in toy")?;
@@ -78,7 +78,7 @@ fn selftest(bins: &Bins, verbose: bool) -> Result<String, String> {
 
 /// the supervisor must not change what the program does: free-running vs supervised
 fn transparency(bins: &Bins) -> Result<(), String> {
-    let w = Worker::new(61, bins);
+    let w = Worker::new(161, bins);
     for s in [props::sets::s1(2), props::sets::s2(2, 4), props::sets::s3("parblock", 2)] {
         w.prepare(&s)?;
         let (code, _) = w.exec_free(&s)?;
@@ -98,6 +98,7 @@ fn transparency(bins: &Bins) -> Result<(), String> {
 
 fn main() {
     let args: Vec<String> = std::env::args().collect();
+    let _ = scratch_base(); // fixes the scratch directory's name before any worker is forked
     let bins = Bins::from_env();
     let code = match args.get(1).map(|s| s.as_str()) {
         Some("selftest") => match selftest(&bins, true).and_then(|m| transparency(&bins).map(|_| m)) {
@@ -161,7 +162,7 @@ fn main() {
             let v: serde_json::Value = serde_json::from_str(&txt).expect("json");
             let s: Scenario = serde_json::from_value(if v.get("scenario").is_some() { v["scenario"].clone() } else { v.clone() }).expect("scenario");
             let spec: RunSpec = if v.get("spec").is_some() { serde_json::from_value(v["spec"].clone()).expect("spec") } else { RunSpec::base(Policy::P0) };
-            let w = Worker::new(62, &bins);
+            let w = Worker::new(162, &bins);
             match w.run(&s, &spec) {
                 Ok(r) => {
                     for l in r.trace_lines() {
